@@ -805,7 +805,7 @@ func checkReducersAndConstructors(in []int) *viol {
 			}
 			c := iterator.Counter(n)
 			r := iterator.Repeat(5, n)
-			gc, gr := iterator.Collect(c), iterator.Collect(r)
+			gc, gr := takeAtMost(c, n+8), takeAtMost(r, n+8) // bounded: a constructor that never ends must not hang the check
 			if !eqInts(gc, wc) || !eqInts(gr, wr) || (n > 0 && !eqInts(xslices.Repeat(5, n), wr)) {
 				v = fail("wrong-output/CounterRepeat", "Counter(%d)=%v Repeat(5,%d)=%v", n, gc, n, gr)
 				return
@@ -824,6 +824,22 @@ func checkReducersAndConstructors(in []int) *viol {
 		return &viol{"panic/reducers", fmt.Sprintf("on %v: %v", in, p)}
 	}
 	return v
+}
+
+// takeAtMost collects at most limit+1 items.
+func takeAtMost(it iterator.Iterator[int], limit int) []int {
+	var out []int
+	if limit < 0 {
+		limit = 0
+	}
+	for i := 0; i <= limit; i++ {
+		x, ok := it.Next()
+		if !ok {
+			break
+		}
+		out = append(out, x)
+	}
+	return out
 }
 
 func checkEqual(a, b []int) *viol {
@@ -921,6 +937,24 @@ func main() {
 		len2, len3 = 10, 6
 	}
 	inputs := append(seqs(2, len2), seqs(3, len3)...)
+	// longer, structured inputs (lengths the exhaustive part cannot reach): all-equal, alternating,
+	// period 3, one long run in the middle, every length 9..40
+	for n := 9; n <= 40; n++ {
+		mk := func(f func(i int) int) []int {
+			s := make([]int, n)
+			for i := range s {
+				s[i] = f(i)
+			}
+			return s
+		}
+		inputs = append(inputs, mk(func(i int) int { return 1 }), mk(func(i int) int { return i % 2 }), mk(func(i int) int { return i % 3 }),
+			mk(func(i int) int {
+				if i > 2 && i < n-2 {
+					return 2
+				}
+				return i % 2
+			}))
+	}
 	combs := intCombs(len2 + 2)
 	report := func(v *viol, replay any) {
 		if v != nil {
@@ -938,6 +972,9 @@ func main() {
 		}
 		for k := 1; k <= len(in)+1; k++ {
 			report(checkChunk(in, k), map[string]any{"combinator": "Chunk", "input": in, "size": k})
+		}
+		if len(in) > 8 {
+			return // the remaining checks are quadratic or worse; the long inputs are for the linear ones
 		}
 		for _, e := range equivs {
 			report(checkRuns(in, e), map[string]any{"combinator": "Runs", "input": in, "classes": e})
